@@ -275,9 +275,27 @@ def check_announced(model, rep):
         # the substituted table, whatever it is called: every parsed replacement, lowered without point axes, under its own name
         table = calls[0].args[1]
         # between lowering and substitution the table may pass through evaluable.disjoint_loop_ids(target, table) (renames clashing loops, keeps names and values)
-        binds = [s_.value for s_ in find_stmts(lower.body, lambda s_: isinstance(s_, ast.Assign) and len(s_.targets) == 1 and src(s_.targets[0]) == src(table))] if isinstance(table, ast.Name) else [table]
-        ok = any(pmatch('{N_: V_.lower(args.without_points) for N_, V_ in self._replacements.items()}', b) is not None for b in binds) and \
-            all(pmatch('{N_: V_.lower(args.without_points) for N_, V_ in self._replacements.items()}', b) is not None or pmatch('evaluable.disjoint_loop_ids(A_, T_)', b) is not None for b in binds)
+        comp = '{N_: V_.lower(args.without_points) for N_, V_ in self._replacements.items()}'
+
+        def leaves(e, depth=0):
+            if depth > 6:
+                return [e]
+            b = pmatch('evaluable.disjoint_loop_ids(A_, T_)', e)
+            if b is not None:
+                return leaves(b['T_'], depth + 1)
+            if isinstance(e, ast.Name):
+                vals = [s_.value for s_ in find_stmts(lower.body, lambda s_: isinstance(s_, ast.Assign) and len(s_.targets) == 1 and src(s_.targets[0]) == e.id)]
+                # a self-referential rebinding (t = disjoint_loop_ids(arg, t)) refers back to the other bindings of the same name
+                out = []
+                for v in vals:
+                    b = pmatch('evaluable.disjoint_loop_ids(A_, T_)', v)
+                    if b is not None and isinstance(b['T_'], ast.Name) and b['T_'].id == e.id:
+                        continue
+                    out.extend(leaves(v, depth + 1))
+                return out or [e]
+            return [e]
+        found = leaves(table)
+        ok = bool(found) and all(pmatch(comp, b) is not None for b in found)
     rep.ob('R13.5', lower.key, lower.where(), ok, 'lower() substitutes exactly the parsed replacements, lowered without point axes' if ok else
            '_Replace.lower does not substitute self._replacements lowered with args.without_points', statement='lower-substitutes')
     # the announced table: unreplaced = arguments of arg minus keys of self._replacements, joined with the replacements' arguments
@@ -401,9 +419,16 @@ def check_capture_avoiding_replace(model, rep):
     dis = [x for x in calls_in(lower.node) if src(x.func) == 'evaluable.disjoint_loop_ids' and len(x.args) == 2]
     ok = len(calls) == 1 and len(dis) == 1
     if ok:
+        from sa.astutil import deep_resolved
         target, table = calls[0].args
-        asg = [s_ for s_ in find_stmts(lower.body, lambda s_: isinstance(s_, ast.Assign) and s_.value is dis[0])]
-        ok = len(asg) == 1 and src(asg[0].targets[0]) == src(table) and src(dis[0].args[0]) == src(target) and asg[0].lineno < calls[0].lineno
+        if table is dis[0]:
+            ok = True   # replace_arguments(target, disjoint_loop_ids(target', table'))
+        else:
+            # the substituted name was last bound, before the substitution, to the result of disjoint_loop_ids
+            asg = [s_ for s_ in find_stmts(lower.body, lambda s_: isinstance(s_, ast.Assign) and len(s_.targets) == 1 and src(s_.targets[0]) == src(table) and s_.lineno < calls[0].lineno)]
+            asg.sort(key=lambda s_: s_.lineno)
+            ok = isinstance(table, ast.Name) and bool(asg) and asg[-1].value is dis[0]
+        ok = ok and src(deep_resolved(lower.node, dis[0].args[0])) == src(deep_resolved(lower.node, target))
     rep.ob('R13.10', lower.key, lower.where(), ok, 'the lowered replacements are made loop-disjoint from the lowered operand before they are substituted' if ok else
            '_Replace.lower substitutes replacement values whose loops may carry the id of a loop of the operand: replacing an argument of an integral by another integral over the same sample nests two loops with one '
            'index, and the simplified expression has another value (694.6 becomes 2275.2 in findings/F43)', statement='capture-avoiding-replace')
